@@ -213,6 +213,8 @@ def pp_transform(t, indent):
         return "%s %s" % (k, pp_items(t["items"]))
     if k == "filter":
         return "filter %s" % pp_expr(t["cond"])
+    if k == "exclude":
+        return "select !{%s}" % ", ".join(pp_expr(e) for e in t["cols"])
     if k == "sort":
         return "sort {%s}" % ", ".join(("-" if d else "") + pp_expr(e) for d, e in t["keys"])
     if k == "take":
@@ -287,8 +289,11 @@ def known_frame(cols):
 
 
 class Scope:
-    def __init__(self, cols, nwild):
-        if nwild == 0:
+    def __init__(self, cols, nwild, dedupe=True):
+        # dedupe: a projection (select / aggregate / append) un-names an earlier column of the same name; a join
+        # keeps both sides' columns addressable by their qualifiers, and transforms that pass columns through
+        # (filter, sort, take, derive of fresh names) leave the frame's names alone
+        if nwild == 0 and dedupe:
             cols = known_frame(cols)
         self.cols = cols          # list of GCol (named ones only are referable)
         self.nwild = nwild        # number of opaque (wildcard) relations in scope
@@ -521,12 +526,28 @@ class Gen:
             nm = self.new_name()
             items.append([nm, self.expr(sc, ty)])
             cols.append(GCol(None, nm, ty))
-        nsc = Scope(cols, sc.nwild)
+        nsc = Scope(cols, sc.nwild, dedupe=False)
         nsc.ordered = sc.ordered
         return {"t": "derive", "items": items}, nsc
 
+    def t_exclude(self, sc):
+        """select !{..}: all columns of the frame except the named ones."""
+        r = self.rng
+        refs = sc.referable()
+        named = [c for c in sc.cols if c.name is not None]
+        if len(refs) < 1 or len(named) < 2:
+            return None
+        if sc.nwild > 1:
+            return None
+        picked = r.sample(refs, r.randint(1, min(2, len(named) - 1, len(refs))))
+        cols = [self.ref(sc, c) for c in picked]
+        rest = [c.clone() for c in sc.cols if not any(c is p for p in picked)]
+        nsc = Scope(rest, sc.nwild, dedupe=False)
+        nsc.ordered = sc.ordered
+        return {"t": "exclude", "cols": cols}, nsc
+
     def t_filter(self, sc):
-        nsc = Scope(sc.cols, sc.nwild)
+        nsc = Scope(sc.cols, sc.nwild, dedupe=False)
         nsc.ordered = sc.ordered
         r = self.rng
         cond = self.expr(sc, "bool")
@@ -557,7 +578,7 @@ class Gen:
             rest.sort(key=lambda c: not c.uniq)
             for c in rest[:r.randint(1, 4)]:
                 keys.append([r.random() < 0.3, self.ref(sc, c)])
-        nsc = Scope(sc.cols, sc.nwild)
+        nsc = Scope(sc.cols, sc.nwild, dedupe=False)
         nsc.ordered = True
         return {"t": "sort", "keys": keys}, nsc
 
@@ -573,7 +594,7 @@ class Gen:
             t = {"t": "take", "lo": None, "hi": r.randint(1, 5)}
         else:
             t = {"t": "take", "lo": r.randint(1, 3), "hi": None}
-        nsc = Scope(sc.cols, sc.nwild)
+        nsc = Scope(sc.cols, sc.nwild, dedupe=False)
         nsc.ordered = sc.ordered
         return t, nsc
 
@@ -592,7 +613,7 @@ class Gen:
         alias = self.new_alias()
         rcols = [c.clone(qual=alias) for c in rcols]
         side = r.choice(["inner", "inner", "left", "left", "right", "full"]) if r.random() < self.p["outer_join"] else "inner"
-        both = Scope(list(sc.cols) + rcols, sc.nwild + (1 if wild else 0))
+        both = Scope(list(sc.cols) + rcols, sc.nwild + (1 if wild else 0), dedupe=False)
         # condition: equality on a same-typed pair, optionally AND an extra comparison
         pairs = []
         lrefs = sc.referable()
@@ -759,7 +780,7 @@ class Gen:
             items.append([nm, e])
             cols.append(GCol(None, nm, ty))
         d = {"t": "derive", "items": items}
-        nsc = Scope([c.clone(uniq=False) for c in cols], cur.nwild)
+        nsc = Scope([c.clone(uniq=False) for c in cols], cur.nwild, dedupe=False)
         nsc.ordered = ordered and not in_group
         if use_window:
             pipe.append({"t": "window", "frame_src": frame_src, "frame": list(frame), "pipe": [d]})
@@ -767,8 +788,35 @@ class Gen:
             pipe.append(d)
         return pipe, nsc
 
+    def t_append_let(self, sc):
+        """append <let> by its bare name: the top projection is made to match the let's frame (arity and types)."""
+        r = self.rng
+        cands = [ent for ent in self.lets if 1 <= len(ent[2]) <= 4 and all(c.name and c.ty in ("int", "text", "float") for c in ent[2])]
+        r.shuffle(cands)
+        for ent in cands:
+            picked, used = [], set()
+            for lc in ent[2]:
+                opts = [c for c in sc.referable(lc.ty) if c.name not in used]
+                if not opts:
+                    picked = None
+                    break
+                same = [c for c in opts if c.name == lc.name]
+                c = r.choice(same) if same and r.random() < 0.6 else r.choice(opts)
+                picked.append(c)
+                used.add(c.name)
+            if not picked:
+                continue
+            sel = {"t": "select", "items": [[None, self.ref(sc, c)] for c in picked]}
+            nsc = Scope([GCol(None, c.name, c.ty) for c in picked], 0)
+            return [sel, {"t": "append", "src": {"k": "let", "name": ent[0]}}], nsc
+        return None
+
     def t_append(self, sc):
         r = self.rng
+        if self.lets and r.random() < self.p.get("append_let", 0.0):
+            res = self.t_append_let(sc)
+            if res:
+                return res
         refs = [c for c in sc.referable() if c.ty in ("int", "text")]
         if not refs:
             return None
@@ -872,6 +920,14 @@ class Gen:
             pipe, sc = self.pipeline(r.randint(1, 3), must_know_frame=True)
             if sc.nwild > 0 or any(c.name is None for c in sc.cols):
                 continue
+            if r.random() < self.p.get("let_end_sort", 0.0):
+                st = self.t_sort(sc, want_total=r.random() < 0.8)
+                if st:
+                    pipe.append(st[0])
+                    sc = st[1]
+                    if r.random() < 0.3:
+                        tt, sc = self.t_take(sc)
+                        pipe.append(tt)
             lets.append([name, pipe])
             self.lets.append((name, pipe, [c.clone(qual=None) for c in sc.cols], bool(sc.ordered)))
         main, sc = self.pipeline(r.randint(1, self.p["max_len"]))
@@ -907,7 +963,7 @@ DEFAULT_PROFILE = {
     "join_pipe": 0.2, "outer_join": 0.4, "group_agg": 0.6, "group_take": 0.25, "window_clause": 0.5,
     "n_lets": [0.5, 0.3, 0.15, 0.05], "unnamed": 0.15,
     "weights": {"select": 2.0, "derive": 2.5, "filter": 2.5, "sort": 2.0, "take": 1.5, "join": 1.5,
-                "aggregate": 0.7, "group": 1.5, "append": 0.4, "window": 0.0},
+                "aggregate": 0.7, "group": 1.5, "append": 0.4, "window": 0.0, "exclude": 0.4},
 }
 
 PROFILES = {
@@ -920,8 +976,14 @@ PROFILES = {
     "boundary": {"weights": {"select": 1.0, "derive": 1.5, "filter": 1.5, "sort": 1.5, "take": 1.0, "join": 1.0,
                              "aggregate": 0.3, "group": 1.0, "append": 0.0, "window": 1.5},
                  "group_agg": 0.4, "group_take": 0.4, "n_lets": [1.0, 0, 0, 0], "use_let": 0.0},
+    # several readers of one let: a (often sorted) let-table read in FROM position by other lets and by the main
+    # pipeline, joined, and appended by its bare name
+    "shared": {"use_let": 0.85, "use_lit": 0.0, "n_lets": [0.0, 0.25, 0.45, 0.3], "let_end_sort": 0.6, "append_let": 0.6, "join_pipe": 0.3,
+               "max_len": 5, "group_window": False,
+               "weights": {"select": 1.5, "derive": 1.0, "filter": 1.5, "sort": 1.0, "take": 2.5, "join": 3.0,
+                           "aggregate": 0.3, "group": 0.8, "append": 1.5, "window": 0.0}},
     "project": {"weights": {"select": 4.0, "derive": 2.5, "filter": 1.0, "sort": 1.5, "take": 1.0, "join": 2.0,
-                            "aggregate": 0.5, "group": 1.5, "append": 0.5, "window": 0.0}},
+                            "aggregate": 0.5, "group": 1.5, "append": 0.5, "window": 0.0, "exclude": 2.0}},
 }
 
 
@@ -930,8 +992,41 @@ def random_program(rng, profile="core"):
         return boundary_program(rng)
     if profile == "boundary_nowin":
         return boundary_program(rng, windows=False)
+    if profile == "shared":
+        return shared_program(rng)
     g = Gen(rng, PROFILES.get(profile, {}))
     return g.program()
+
+
+def let_refs(prog):
+    """name -> number of places (from / join / append, in lets and in the main pipeline) that read the let."""
+    n = {}
+
+    def walk(pipe):
+        for t in pipe:
+            s = t.get("src")
+            if s:
+                if s["k"] == "let":
+                    n[s["name"]] = n.get(s["name"], 0) + 1
+                elif s["k"] == "pipe":
+                    walk(s["pipe"])
+            if t["t"] in ("group", "window"):
+                walk(t["pipe"])
+    for _, p in prog.get("lets", []):
+        walk(p)
+    walk(prog["main"])
+    return n
+
+
+def shared_program(rng):
+    """A program in which some let-table has at least two readers."""
+    prog = None
+    for _ in range(8):
+        g = Gen(rng, PROFILES["shared"])
+        prog = g.program()
+        if max(let_refs(prog).values() or [0]) >= 2:
+            break
+    return prog
 
 
 BOUNDARY_END = ["take", "sort", "take", "aggregate", "group", "join", "derive", "filter", "window", "select", "distinct", "distinct"]
